@@ -48,10 +48,20 @@ def check(run):
         for name in ('ts_vargmin_to', 'ts_vmin_to', 'ts_vargmax_to', 'ts_vmax_to'):
             extreme_kernel(run, models[name], rev=('max' in name), arg=('arg' in name))
         for a, b in (('ts_vmin_to', 'ts_vmax_to'), ('ts_vargmin_to', 'ts_vargmax_to')):
-            # `idx <= start` is an accepted variant of the expiry test (see EXT.expiry)
-            sib.check_pair(run, 'SIB.mirror', ks[a].fn, ks[b].fn, ks[a].fn.hir, ks[b].fn.hir,
-                           subst_a=((' <= ', ' < '),),
-                           subst_b=(('sort_cmp_rev', 'sort_cmp'), (' <= ', ' < ')))
+            sa, sb = _mirror_sig(models[a]), _mirror_sig(models[b])
+            diff = None
+            if sa is None or sb is None:
+                diff = 'cache variables not recognised'
+            else:
+                for part in ('body', 'rescan'):
+                    if sa[part] != sb[part]:
+                        only_a = sorted(map(str, sa[part] - sb[part]))[:1]
+                        only_b = sorted(map(str, sb[part] - sa[part]))[:1]
+                        diff = '%s tables differ: %s  vs  %s' % (part, only_a, only_b)
+                        break
+            run.ob('SIB.mirror', ks[a].fn, '%s ~ %s' % (a, b), diff is None, ks[a].fn.loc(),
+                   'decision tables agree after sort_cmp_rev -> sort_cmp (%d + %d rows)' %
+                   (len(sa['body']), len(sa['rescan'])) if diff is None else diff)
         rank_kernel(run, models['ts_vrank_to'])
         zscore(run, models['ts_vzscore_to'])
         minmax(run, models['ts_vminmaxnorm_to'])
@@ -67,6 +77,45 @@ def check(run):
         'window" itself is not derived.',
         ASSUME, TRUSTED,
         'instances = kernels x (expiry, tie, comparator, result, mirror, formula) sites')
+
+
+def _mirror_sig(m):
+    """Decision tables of an extreme kernel (closure body, rescan loop body) over role names,
+    with the comparator name erased and independent assignments unordered."""
+    m.classify()
+    val, idx = _cache_vars(m)
+    if len(val) != 1 or len(idx) != 1:
+        return None
+    env = {lid: t for lid, t in m.tags.items()}
+    env[val[0]['updates'][0].target['local']] = 'CACHE'
+    env[idx[0]['updates'][0].target['local']] = 'CIDX'
+    cnt = acc.count_acc(m)
+    if cnt is not None:
+        env[cnt] = 'n'
+
+    def sig(t):
+        out = set()
+        for cs, leaf, ef in t:
+            groups = {}
+            for e in ef:
+                e = dtree.unprime(e).replace('sort_cmp_rev', 'sort_cmp')
+                if e.startswith('for '):
+                    e = '<rescan loop>'
+                groups.setdefault(e.split(' ')[0], []).append(e)
+            # `<=` is an accepted variant of the expiry test (see EXT.expiry)
+            cs2 = frozenset(dtree.unprime(c).replace('sort_cmp_rev', 'sort_cmp')
+                            .replace('(CIDX <= OLDIDXOPT)', '(CIDX < OLDIDXOPT)')
+                            .replace('(OLDIDXOPT < CIDX)', '(OLDIDXOPT <= CIDX)') for c in cs)
+            out.add((cs2, dtree.unprime(leaf), frozenset((k, tuple(v)) for k, v in groups.items())))
+        return out
+    body = sig(dtree.table(m.body, dict(env)))
+    resc = set()
+    for lp in [x for x in walk(m.body) if x.get('k') == 'For']:
+        en = dtree.env_at(m.body, lp, dict(env))
+        for b_ in _pat_binds(lp['pat']):
+            en[b_['local']] = 'i'
+        resc |= sig(dtree.table(lp['ch'][1], en))
+    return {'body': body, 'rescan': resc}
 
 
 def _ifs(e):
@@ -222,69 +271,95 @@ def extreme_kernel(run, m, rev, arg):
 
 
 def rank_kernel(run, m):
+    from algebra import parse_poly, defs_of
     fn = m.k.fn
+    env = {lid: t for lid, t in m.tags.items()}
     loops = [x for x in walk(m.body) if x.get('k') == 'For']
     ok = len(loops) == 1
     det = '%d loop(s)' % len(loops)
+    rank_v = nrep_v = None
     if ok:
-        r = peel(loops[0]['ch'][0])
-        lo, hi = peel(r['ch'][0]), peel(r['ch'][1])
-        okr = r.get('k') == 'Range' and not r['incl'] and m.idx_tag(hi) == 'END' and \
-            lo.get('k') == 'MethodCall' and callee_is(lo, 'Option::unwrap_or') and \
-            m.idx_tag(lo['ch'][0]) == 'OLDIDXOPT' and src(peel(lo['ch'][1])) == '0'
-        env = {}
-        for x in walk(m.body):
-            if x.get('k') == 'Block':
-                for s in x.get('stmts', []):
-                    if s['k'] == 'Let' and s['pat'].get('k') == 'Binding' and 'init' in s:
-                        t = m.tag_of(s['init'])
-                        if t == 'NEW0':
-                            env[s['pat']['local']] = 'v'
-        env[loops[0]['pat']['local']] = 'i'
-        tbl = dtree.table(loops[0]['ch'][1], env)
+        en_l = dtree.env_at(m.body, loops[0], env)
+        rng = dtree.canon(loops[0]['ch'][0], en_l)
+        okr = rng == 'OLDIDXOPT.unwrap_or(0)..END'
+        en_b = dict(en_l)
+        for b_ in _pat_binds(loops[0]['pat']):
+            en_b[b_['local']] = 'i'
+        tbl = dtree.table(loops[0]['ch'][1], en_b)
         want = dtree.Table([
-            (frozenset({'VALID(self.uget(i))', '(self.uget(i) < v)'}), '()', ('rank AddAssign 1.',)),
-            (frozenset({'VALID(self.uget(i))', '(self.uget(i) == v)'}), '()', ('n_repeat AddAssign 1',)),
-            (frozenset({'VALID(self.uget(i))', '(v < self.uget(i))'}), '()', ()),
+            (frozenset({'VALID(self.uget(i))', '(self.uget(i) < NEW0)'}), '()', ('rank AddAssign 1.',)),
+            (frozenset({'VALID(self.uget(i))', '(NEW0 == self.uget(i))'}), '()', ('nrep AddAssign 1',)),
+            (frozenset({'VALID(self.uget(i))', '(NEW0 < self.uget(i))'}), '()', ()),
             (frozenset({'!VALID(self.uget(i))'}), '()', ())])
-        tbl2 = tbl
-        okt = tbl2 == want
-        guard = any(x.get('k') == 'If' and 'VALID(NEW0)' in m.preds(x['ch'][0]) and
-                    any(y is loops[0] for y in walk(x['ch'][1])) for x in walk(m.body))
-        run.ob('RANK.count', fn, 'loop range', okr, loc(loops[0]), 'range `%s`' % src(r))
+        okt = tbl == want
+        for cs, l, ef in tbl:
+            for e in ef:
+                mm = re.match(r"(\w+)'* AddAssign 1(\.?)$", e)
+                if mm:
+                    if mm.group(2):
+                        rank_v = mm.group(1)
+                    else:
+                        nrep_v = mm.group(1)
+        g = dtree.guards_at(m.body, loops[0], env)
+        guard = bool(g) and 'VALID(NEW0)' in g[0]
+        run.ob('RANK.count', fn, 'loop range', okr, loc(loops[0]), 'range `%s`' % rng)
         run.ob('RANK.count', fn, 'loop body', okt and guard, loc(loops[0]),
-               'table %s; under v.not_none(): %s' % (dtree.show(tbl2), guard))
+               'table %s; under v.not_none(): %s' % (dtree.show(tbl), guard))
     else:
         run.ob('RANK.count', fn, 'loop range', False, fn.loc(), det)
-    # formulas
-    env = Env()
-    forms = {}
-    for x in walk(m.body):
-        if x.get('k') == 'If' and src(peel(x['ch'][0])) in ('!rev', 'rev') and len(x['ch']) == 3:
-            a, b = norm(x['ch'][1], env), norm(x['ch'][2], env)
-            if src(peel(x['ch'][0])) == 'rev':
-                a, b = b, a
-            forms['asc'], forms['desc'] = a, b
-        if x.get('k') == 'If' and src(peel(x['ch'][0])) == 'pct' and len(x['ch']) == 3:
-            for u in walk(x['ch'][1]):
-                if u.get('k') == 'Assign':
-                    forms['pct'] = norm(u['ch'][1], env)
-            for u in walk(x['ch'][2]):
-                if u.get('k') == 'Assign':
-                    forms['abs'] = norm(u['ch'][1], env)
-    rank, nrep, n, res = sym('rank'), sym('n_repeat'), sym('n'), sym('res')
+    # formulas: the value written to the output per (rev, pct), as polynomials over
+    # rank / n_repeat / n with helper lets substituted
+    m.classify()
+    cnt_local = acc.count_acc(m)
+    env2 = dict(env)
+    if cnt_local is not None:
+        env2['__names__'] = {cnt_local: 'n'}
+        env2[cnt_local] = 'n'
+    t = dtree.table(m.body, env2)
+    sym = lambda x: Poly.atom(('sym', x))
+    rank, nrep, n = sym(rank_v or '?'), sym(nrep_v or '?'), sym('n')
     half = Poly.const(1) * Poly({(): __import__('fractions').Fraction(1, 2)})
-    want = {'asc': rank + half * (nrep - Poly.const(1)),
-            'desc': (n + Poly.const(1)) - rank - half * (nrep - Poly.const(1)),
-            'pct': res * n.inv(), 'abs': res}
-    for k in ('asc', 'desc', 'pct', 'abs'):
-        run.ob('RANK.formula', fn, k, forms.get(k) == want[k], fn.loc(),
-               'got %s, expected %s' % (forms[k].show() if k in forms else 'nothing', want[k].show()))
-    nullcur = [u for x in walk(m.body) if x.get('k') == 'If' and 'VALID(NEW0)' in m.preds(x['ch'][0])
-               and len(x['ch']) == 3 for u in walk(x['ch'][2]) if u.get('k') == 'Assign' and
-               src(peel(u['ch'][0])) == 'rank' and acc.is_null_literal(u['ch'][1])]
-    run.ob('RANK.formula', fn, 'null current element', len(nullcur) == 1, fn.loc(),
-           'rank = NaN on the null branch: %d' % len(nullcur))
+    asc = rank + half * (nrep - Poly.const(1))
+    desc = (n + Poly.const(1)) - rank - half * (nrep - Poly.const(1))
+    want = {('asc', 'abs'): asc, ('desc', 'abs'): desc, ('asc', 'pct'): asc * n.inv(), ('desc', 'pct'): desc * n.inv()}
+    got = {}
+    nullcur_ok = True
+    n_null = 0
+    for cs, leaf, ef in t:
+        u = dtree.unprime
+        cs_u = {u(c) for c in cs}
+        if '(min_periods <= n)' not in cs_u:
+            continue
+        efu = [u(e) for e in ef]
+        defs = defs_of(efu)
+        val = None
+        lf = u(leaf)
+        for e in reversed(efu):
+            mm = re.match(r'%s (?:=|:=) (.*)$' % re.escape(lf), e)
+            if mm:
+                val = mm.group(1)
+                break
+        if val is None:
+            val = lf
+        if '!VALID(NEW0)' in cs_u:
+            n_null += 1
+            # the current element is null: rank is set to NaN before the formula
+            nullcur_ok = nullcur_ok and any(re.fullmatch(r'%s = NULL' % re.escape(rank_v or '?'), e) for e in efu)
+            continue
+        if 'VALID(NEW0)' not in cs_u:
+            continue
+        key = ('desc' if 'rev' in cs_u else 'asc' if '!rev' in cs_u else '?',
+               'pct' if 'pct' in cs_u else 'abs' if '!pct' in cs_u else '?')
+        # accumulators keep their names: only immutable helper lets are definitions
+        defs = {k: v for k, v in defs.items() if k not in (rank_v, nrep_v, 'n')}
+        p_ = parse_poly(val, defs)
+        got.setdefault(key, set()).add(p_)
+    for k in sorted(want):
+        g_ = got.get(k, set())
+        run.ob('RANK.formula', fn, '%s %s' % k, g_ == {want[k]}, fn.loc(),
+               'got %s, expected %s' % ([x.show() for x in g_] or 'nothing', want[k].show()))
+    run.ob('RANK.formula', fn, 'null current element', nullcur_ok and n_null > 0, fn.loc(),
+           'rank = NaN on the %d null-element path(s): %s' % (n_null, nullcur_ok))
 
 
 def _nonnull_leaf_poly(m):
